@@ -90,6 +90,11 @@ func (a *Allocator) Allocate(hint net.IPNet) (ret net.IPNet, err error) {
 
 // Free returns the given prefix to the available pool if it was taken.
 func (a *Allocator) Free(prefix net.IPNet) error {
+	if !a.containing.Contains(prefix.IP) {
+		// Offset() below is an absolute distance: a prefix before the start of the
+		// pool would otherwise be mistaken for the block as far after it
+		return fmt.Errorf("Could not find prefix in pool: %s is not in %s", prefix.String(), a.containing.String())
+	}
 	idx, err := a.toIndex(prefix.IP.Mask(prefix.Mask))
 	if err != nil {
 		return fmt.Errorf("Could not find prefix in pool: %w", err)
